@@ -161,6 +161,51 @@ MUTS = [
     ('DashIterator::next keeps closepath_pending set', 'kurbo/src/stroke.rs',
      '                            self.closepath_pending = false;\n                            self.state = DashState::NeedInput;', '                            self.state = DashState::NeedInput;',
      {"stroke.rs::<DashIterator<'_,T> as Iterator>::next"}),
+    # ---- phase 4: the SVG lexer (simulation, abs (data, ix) = skipn ix data)
+    ("`+` dropped from get_cmd's number-start test", 'kurbo/src/svg.rs',
+     "(c == b'-' || c == b'+' || c == b'.' || c.is_ascii_digit())", "(c == b'-' || c == b'.' || c.is_ascii_digit())",
+     {"svg.rs::SvgLexer<'_>::get_cmd"}),
+    ('relative/absolute swapped in get_maybe_relative', 'kurbo/src/svg.rs',
+     'if cmd.is_ascii_lowercase() {\n            Ok(self.last_pt + pt.to_vec2())', 'if cmd.is_ascii_uppercase() {\n            Ok(self.last_pt + pt.to_vec2())',
+     {"svg.rs::SvgLexer<'_>::get_maybe_relative"}),
+    ('exponent sign `+` dropped in get_number', 'kurbo/src/svg.rs',
+     "                if c == b'-' || c == b'+' {\n                    c = self.get_byte()", "                if c == b'-' {\n                    c = self.get_byte()",
+     {"svg.rs::SvgLexer<'_>::get_number"}),
+    ('form feed no longer whitespace in skip_ws', 'kurbo/src/svg.rs',
+     "c == 10 || c == 12 || c == 13", "c == 10 || c == 11 || c == 13",
+     {"svg.rs::SvgLexer<'_>::skip_ws"}),
+    ('get_flag reads `1` as false', 'kurbo/src/svg.rs',
+     "b'1' => Ok(true),", "b'1' => Ok(false),",
+     {"svg.rs::SvgLexer<'_>::get_flag"}),
+    ('opt_comma puts back the comma instead of the other byte', 'kurbo/src/svg.rs',
+     "            if c != b',' {\n                self.unget();", "            if c == b',' {\n                self.unget();",
+     {"svg.rs::SvgLexer<'_>::opt_comma"}),
+    ('second get_number of get_number_pair skipped comma handling', 'kurbo/src/svg.rs',
+     '        let x = self.get_number()?;\n        self.opt_comma();\n        let y', '        let x = self.get_number()?;\n        let y',
+     {"svg.rs::SvgLexer<'_>::get_number_pair"}),
+    # the body of from_svg's command loop (tied to the model's step_cmd by simulation) and Arc::from_svg_arc
+    ('last_ctrl not updated in the Q arm of from_svg', 'kurbo/src/svg.rs',
+     '                    path.quad_to(p1, p2);\n                    last_ctrl = Some(p1);\n                    lexer.last_pt = p2;\n                    last_cmd = c;\n                }\n                b\'t\'',
+     '                    path.quad_to(p1, p2);\n                    lexer.last_pt = p2;\n                    last_cmd = c;\n                }\n                b\'t\'',
+     {'svg.rs::BezPath::from_svg (loop body)'}),
+    ('S arm of from_svg reflects after q/Q/t/T instead of c/C/s/S', 'kurbo/src/svg.rs',
+     "Some(ctrl) if matches!(last_cmd, b'c' | b'C' | b's' | b'S') => {", "Some(ctrl) if matches!(last_cmd, b'q' | b'Q' | b't' | b'T') => {",
+     {'svg.rs::BezPath::from_svg (loop body)'}),
+    ('h arm of from_svg adds last_pt.y instead of last_pt.x', 'kurbo/src/svg.rs',
+     'x += lexer.last_pt.x;', 'x += lexer.last_pt.y;',
+     {'svg.rs::BezPath::from_svg (loop body)'}),
+    ('from_svg starts with last_cmd = 1 instead of 0', 'kurbo/src/svg.rs',
+     'let mut last_cmd = 0;', 'let mut last_cmd = 1;',
+     {'svg.rs::BezPath::from_svg'}),
+    ('from_svg forgets the parsed path (returns an empty one)', 'kurbo/src/svg.rs',
+     '        Ok(path)\n    }\n}\n\n/// An error which can be returned when parsing an SVG.', '        Ok(BezPath::new())\n    }\n}\n\n/// An error which can be returned when parsing an SVG.',
+     {'svg.rs::BezPath::from_svg'}),
+    ('large_arc == sweep -> != in Arc::from_svg_arc', 'kurbo/src/svg.rs',
+     'let sign_coe = if arc.large_arc == arc.sweep {', 'let sign_coe = if arc.large_arc != arc.sweep {',
+     {'svg.rs::Arc::from_svg_arc'}),
+    ('is_straight_line threshold 1e-5 -> 1e-6', 'kurbo/src/svg.rs',
+     'self.radii.x.abs() <= 1e-5 ||', 'self.radii.x.abs() <= 1e-6 ||',
+     {'svg.rs::SvgArc::is_straight_line'}),
     # a helper without a model counterpart: every user follows
     ('helper Rect::new swaps y0/y1 (all users of the helper follow)', 'kurbo/src/rect.rs',
      'Rect { x0, y0, x1, y1 }\n    }', 'Rect { x0, y0: y1, x1, y1: y0 }\n    }',
